@@ -25,7 +25,7 @@
 (* several libraries together into a single module") and the one           *)
 (* combination that needs a class from outside the inputs.                 *)
 (*                                                                         *)
-(* The product has 3*3*2^9*2^9 = 2 359 296 points.  The behaviour of this    *)
+(* The product has 3*3*3*3*2^17 = 10 616 832 points.  The behaviour of this    *)
 (* spec is a COVERING ARRAY of strength T (2 = pairwise): every step adds  *)
 (* one valid row that covers at least one still uncovered T-tuple of       *)
 (* (factor, value) pairs (seeded with such a tuple, the other factors      *)
@@ -50,7 +50,7 @@ Factors == << [n |-> "backend",      v |-> 3],   \* 1 -c, 2 -python, 3 -python-n
               [n |-> "promiscuous",  v |-> 2],
               [n |-> "nomangle",     v |-> 2],
               [n |-> "assert",       v |-> 2],
-              [n |-> "libraries",    v |-> 2],   \* 1 one library, 2 two libraries in the module
+              [n |-> "libraries",    v |-> 3],   \* 1, 2 or 3 libraries in the module
               [n |-> "f_keywords",   v |-> 2],
               [n |-> "f_operators",  v |-> 2],
               [n |-> "f_strdefault", v |-> 2],
@@ -59,22 +59,42 @@ Factors == << [n |-> "backend",      v |-> 3],   \* 1 -c, 2 -python, 3 -python-n
               [n |-> "f_enumdefault", v |-> 2],
               [n |-> "f_stdstring",  v |-> 2],
               [n |-> "f_conversions", v |-> 2],
-              [n |-> "f_hierarchy",  v |-> 2] >>
+              [n |-> "f_hierarchy",  v |-> 2],
+              \* an inheritance chain that crosses the library boundary (XPuppy : XDog in library B, XDog :
+              \* XAnimal both in library A; with three libraries XPup3 : XPuppy in library C): 1 none,
+              \* 2 nothing else in B names the grand-parent, 3 B also names the grand-parent
+              [n |-> "f_xinherit",   v |-> 3] >>
 NF == Len(Factors)
 FV == {<<f, v>> : f \in 1..NF, v \in 1..3} \cap {p \in (1..NF) \X (1..3) : p[2] <= Factors[p[1]].v}
 
 \* excluded combinations of (factor, value)
 Excluded == { {<<2, 1>>, <<4, 2>>},      \* -fnames with -true-names: rejected by interrogate
               {<<7, 2>>, <<11, 2>>},     \* -do-module with several libraries per module
+              {<<7, 2>>, <<11, 3>>},
+              {<<11, 1>>, <<21, 2>>},    \* a chain across libraries needs a second library
+              {<<11, 1>>, <<21, 3>>},
               \* -python-native without -string wraps std::string as a CLASS that some other module
               \* must provide (it is imported at module initialisation): such a module cannot
               \* initialise on its own -- it depends on a runtime that is not part of the inputs
               {<<1, 3>>, <<3, 1>>, <<18, 2>>} }
 NoExcluded(S) == \A e \in Excluded : ~(e \subseteq S)
 
-\* the valid T-tuples: T (factor, value) pairs on distinct factors containing no excluded pair
+\* A partial assignment can be completed to a valid row iff it contains no excluded combination and
+\* the factors that occur in SEVERAL exclusions can be completed (-do-module forces one library, a chain
+\* across libraries forces two: the two exclusions interact through `libraries`).  A factor that occurs
+\* in one exclusion only can always take a value outside it.
+CF == {p[1] : p \in UNION Excluded}
+Chained == {f \in CF : Cardinality({e \in Excluded : \E p \in e : p[1] = f}) >= 2}
+ChainedExcl == {e \in Excluded : \E p \in e : p[1] \in Chained}
+CFC == {p[1] : p \in UNION ChainedExcl}
+ValidCore == {a \in [CFC -> 1..3] : /\ \A g \in CFC : a[g] <= Factors[g].v
+                                     /\ \A e \in ChainedExcl : ~(e \subseteq {<<h, a[h]>> : h \in CFC})}
+Extendable(S) == /\ NoExcluded(S)
+                 /\ \E a \in ValidCore : \A p \in S : p[1] \in CFC => a[p[1]] = p[2]
+
+\* the valid T-tuples: T (factor, value) pairs on distinct factors that occur together in some valid row
 Tuples == {ts \in kSubset(T, FV) : /\ \A p, q \in ts : p # q => p[1] # q[1]
-                                   /\ NoExcluded(ts)}
+                                   /\ Extendable(ts)}
 
 RowSet(row) == {<<f, row[f]>> : f \in DOMAIN row}
 Valid(row) == DOMAIN row = 1..NF /\ (\A f \in 1..NF : row[f] \in 1..Factors[f].v) /\ NoExcluded(RowSet(row))
@@ -95,7 +115,7 @@ RECURSIVE Fill(_, _, _, _)
 Fill(r, f, U, n) ==
   IF f > NF THEN r
   ELSE IF f \in DOMAIN r THEN Fill(r, f + 1, U, n)
-  ELSE LET cand == {v \in 1..Factors[f].v : NoExcluded(RowSet(r) \cup {<<f, v>>})}
+  ELSE LET cand == {v \in 1..Factors[f].v : Extendable(RowSet(r) \cup {<<f, v>>})}
            g == [v \in cand |-> Gain(r, f, v, U)]
            \* ties are broken by a preference that rotates with the row number n (= rows + variant),
            \* so that rows -- and the arrays of different variants -- differ
